@@ -98,13 +98,15 @@ func runC13(r *Run) {
 	var observed []obs
 	curStore := ""
 	var srv *httptest.Server
+	var curOIDC *web.OIDC
+	lifetimeChecked := 0
 	codeN := 0
 	for _, c := range cases {
 		if c.store != curStore {
 			if srv != nil {
 				srv.Close()
 			}
-			srv, _ = newServer(c.store, keyA, keyB)
+			srv, curOIDC = newServer(c.store, keyA, keyB)
 			curStore = c.store
 		}
 		cl := newClient()
@@ -117,6 +119,14 @@ func runC13(r *Run) {
 		}
 		lu, _ := url.Parse(loc)
 		state := lu.Query().Get("state")
+		// a state value lives two minutes (hook: expiry as recorded by the state store)
+		if exp, found := web.VerifStateExpiry(curOIDC, state); lifetimeChecked < 50 {
+			lifetimeChecked++
+			left := time.Until(exp)
+			if !found || left > 121*time.Second || left < 110*time.Second {
+				r.Violation("c13-state-lifetime", "a state value issued by the gateway does not expire two minutes after issuance", fmt.Sprintf("state %s found=%v expires in %v\n", state, found, left))
+			}
+		}
 		codeN++
 		code := fmt.Sprintf("code-%d", codeN)
 		at := fmt.Sprintf("at-%d", codeN)
